@@ -132,18 +132,45 @@ STATE_PROBES = [
     "#program always. { a; b }. :- &del { * a .>? b }.",
     "#program always. { a }. b' :- a. :- b, a''.",
     "#program initial. { a }. &tel { >* (a | ~ b) } :- a.",
+    # the same shape twice, differing only inside a compound argument (what a cache keyed by position or index would confuse)
+    "#program always. { lamp(room(1)) }. #program initial. :- not &tel { > lamp(room(1)) }.",
+    "#program always. { lamp(room(2)) }. #program initial. :- not &tel { > lamp(room(2)) }.",
+    "#program always. { p((1,a)) }. w :- not not &tel { < p((1,a)) | p((1,a)) }.",
+    "#program always. { p((2,a)) }. w :- not not &tel { < p((2,a)) | p((2,a)) }.",
+    "#program always. { q(f(a),1) }. #program initial. &tel { > q(f(a),1) }.",
+    "#program always. { q(f(b),1) }. #program initial. &tel { > q(f(b),1) }.",
 ]
 
+def _fresh_models(p):
+    """the answer sets of one program computed in an interpreter of its own"""
+    d = run_worker([([p], 2)], 0)[0]
+    m = d.get("models")
+    if not isinstance(m, dict):
+        return None
+    return {int(h): sorted(set(tuple(x) for x in v)) for h, v in m.items()}
+
 def _probe_chunk(args):
-    """answer sets of P, then another program, then P again — in one process, for every ordered pair of the probes"""
+    """answer sets of P, then another program, then P again — in one process, for every ordered pair of the probes; and every
+    probe solved after another one against its answer sets from an interpreter of its own"""
     (idx,) = args
     fails = []
     cnt = 0
     p = STATE_PROBES[idx]
     m1 = oracles.impl_models(p, 2, dedup=True)
+    fresh = _fresh_models(p)
+    if fresh is not None and m1[0] == "ok" and m1[1] != fresh:
+        fails.append({"kind": "models-depend-on-process-history", "text": p, "what": "the answer sets in a process that has solved other "
+                      "programs before differ from those in a fresh interpreter", "fresh": str(fresh)[:300], "here": str(m1[1])[:300]})
     for q in STATE_PROBES:
         cnt += 1
-        oracles.impl_models(q, 2)
+        mq = oracles.impl_models(q, 2, dedup=True)
+        if q != p and mq[0] == "ok":
+            fq = _fresh_models(q)
+            if fq is not None and mq[1] != fq:
+                fails.append({"kind": "models-depend-on-process-history", "text": q + "\n%%% solved after\n" + p,
+                              "what": "the answer sets of a program solved after another one differ from those in a fresh interpreter",
+                              "fresh": str(fq)[:300], "here": str(mq[1])[:300]})
+                break
         m2 = oracles.impl_models(p, 2, dedup=True)
         if m1 != m2 and "Timeout" not in (m1[1], m2[1]):
             fails.append({"kind": "models-after-other-run", "text": p + "\n%%% solved again after\n" + q,
